@@ -11,6 +11,11 @@
  C13.owner       a Thread member that copies another Thread's OS handle leaves the source with 0 on every path (single owner: the
                  destructor detaches, join() on a detached handle does not wait)
  C13.init        every public constructor of Mutex / Semaphore / Condition initialises the native object it wraps
+ C13.start       every path through Thread::start() / run(function, argument) reaches the creation of an OS thread (helpers followed):
+                 a start() that returns without creating one runs the body 0 times for that call
+ C13.deadline    the absolute deadline a timed wait hands to sem_timedwait / pthread_cond_timedwait is interpreted for a grid of clock
+                 values and timeouts: 0 <= tv_nsec < 10^9 and tv_sec + tv_nsec/10^9 = now + timeout (an out-of-range tv_nsec makes the
+                 call fail at once with EINVAL: the wait returns without waiting and a post inside the window is not received)
  C13.join        parallel_for / parallel_invoke join every thread they started before returning; delete follows join
  C13.partition   parallel_for: worker count n is evaluated over a grid of (requested threads, range length): 1 <= n <= both when the
                  range is non-empty; the Context carries start = i0 + worker index, end = i1, stride = n, and beginfN iterates
@@ -38,6 +43,8 @@ def run(ctx):
     check_wrappers(ctx, prog)
     check_owner(ctx, prog)
     check_native_init(ctx, prog)
+    check_start(ctx, prog)
+    check_deadline(ctx, prog)
     return __doc__.split('\n\n', 1)[1]
 
 
@@ -913,3 +920,134 @@ def check_native_init(ctx, prog):
                 role = '%s%s:native object `%s` initialised' % (f['n'], f['sig'], fld)
                 ctx.check(done, 'C13.init', f['pq'], role, fwhere(f), 'initialised by a member initialiser / assignment / *_init call', '%s%s leaves the native object `%s` uninitialised (a sibling constructor initialises it): in memory that is not all zero the first wait() / signal() blocks inside the C library or loses the signal' % (f['n'], f['sig'], fld))
     ctx.floor('C13.init public constructors of native wrappers', n, 3)
+
+
+
+CREATE_CALLS = ('pthread_create', '_beginthreadex', 'CreateThread', '_beginthread')
+
+
+def check_start(ctx, prog):
+    """C13.start: run-exactly-once per start() needs a thread per start(): on every path from the entry of Thread::start() and of
+    each run(function, ...) overload to a normal exit an OS thread creation call is passed (class helpers followed).  Paths that
+    end in the allocation-failure handler leave by throwing and are not exits."""
+    n = 0
+    for f in prog.functions:
+        if f.get('pq') not in ('asl::Thread::start', 'asl::Thread::run') or not f.get('body') or f.get('static'):
+            continue
+        if f['n'] == 'run' and not f['params']:
+            continue                    # the virtual body, not a starter
+        if f['n'] == 'start' and f['params']:
+            continue
+        cfg = cfgm.CFG(f)
+
+        def step(nd, st):
+            if nd.kind == 'ev' and nd.e is not None:
+                for w in walk_expr(nd.e):
+                    if w.get('k') == 'call' and (w.get('fn') or '').split('::')[-1] in CREATE_CALLS:
+                        return True
+            return st
+        reached, _ = cfgm.dataflow(cfg, False, cfgm.follow_helpers(prog, f, step))
+        exits = reached.get(cfg.exit.id, set())
+        ctx.evaluations += sum(len(v) for v in reached.values())
+        role = f['n'] + f['sig'] + ':every call creates a thread'
+        if role in [o.role for o in ctx.obligations if o.rule == 'C13.start']:
+            continue
+        n += 1
+        ctx.analysed(f)
+        if not exits:
+            ctx.undecided('C13.start', f['pq'], role, fwhere(f), 'no path reaches the exit')
+        else:
+            ctx.check(False not in exits, 'C13.start', f['pq'], role, fwhere(f), 'no path from entry to exit avoids the thread creation call',
+                      '%s%s can return without creating a thread (an early return or a guarded creation): run() executes 0 times for that start(), and a later join() returns without its effects' % (f['n'], f['sig']))
+    ctx.floor('C13.start', n, 2)
+
+
+
+def check_deadline(ctx, prog):
+    """C13.deadline: see the module text.  The wait function is interpreted (scansim) with the clock stubbed (now() / inow() /
+    clock_gettime / gettimeofday agree on one instant) and the native timed wait replaced by a recorder of its timespec."""
+    import scansim, math
+    n = 0
+    nows = (1000.0, 1000.25, 1000.5, 1000.75, 1000.999999, 1700000000.9)
+    timeouts = (0.0, 0.001, 0.25, 0.35, 0.5, 0.75, 0.999999, 1.0, 1.25, 2.0, 10.5)
+    for f in prog.functions:
+        if not f.get('body') or f.get('n') != 'wait' or len(f['params']) != 1 or not T(f, f['params'][0]['t']).get('flt'):
+            continue
+        if f.get('cls') not in ('asl::Semaphore', 'asl::Condition'):
+            continue
+        if not any(e.get('k') == 'call' and (e.get('fn') or '').endswith('_timedwait') for e in q.fn_exprs_inlined(prog, f)):
+            continue
+        role = '%s::wait(timeout):deadline = now + timeout, normalised' % f['cls'].split('::')[-1]
+        if role in [o.role for o in ctx.obligations if o.rule == 'C13.deadline']:
+            continue
+        n += 1
+        ctx.analysed(f)
+        bad = und = None
+        runs = 0
+        for nw in nows:
+            for to_ in timeouts:
+                got = {}
+
+                def timed(run, e, args, got=got):
+                    ts = [a for a in args if isinstance(a, tuple) and a[0] == 'R']
+                    if len(ts) != 1:
+                        raise scansim.Unsupported('timespec argument of the timed wait not a local structure')
+                    got['ts'] = dict(run.recs[ts[0][1]])
+                    return 0
+
+                def gettime(run, e, args, nw=nw):
+                    ts = [a for a in args if isinstance(a, tuple) and a[0] == 'R']
+                    if not ts:
+                        raise scansim.Unsupported('clock structure')
+                    rec = run.recs[ts[0][1]]
+                    rec['tv_sec'] = int(math.floor(nw))
+                    frac = nw - math.floor(nw)
+                    if (e.get('fn') or '').endswith('gettimeofday'):
+                        rec['tv_usec'] = int(round(frac * 1e6))
+                    else:
+                        rec['tv_nsec'] = int(round(frac * 1e6)) * 1000
+                    return 0
+                ext = {'now': lambda r, e, a, nw=nw: nw, 'asl::now': lambda r, e, a, nw=nw: nw,
+                       'inow': lambda r, e, a, nw=nw: int(round(nw * 1e6)), 'asl::inow': lambda r, e, a, nw=nw: int(round(nw * 1e6)),
+                       'floor': lambda r, e, a: float(math.floor(a[0])), 'ceil': lambda r, e, a: float(math.ceil(a[0])),
+                       'fmod': lambda r, e, a: math.fmod(a[0], a[1]), 'clock_gettime': gettime, 'gettimeofday': gettime,
+                       'sem_timedwait': timed, 'pthread_cond_timedwait': timed}
+                try:
+                    rn = scansim.Run(prog, f, {}, int_params={f['params'][0]['id']: to_}, mems={}, externs=ext, objects=True, methods={'*': 'interp'})
+                    # pointer members to other wrappers (Condition::_mutex): an opaque record whose native field is only passed on
+                    rcd = prog.records.get(f['cls']) or {}
+                    for fl in rcd.get('fields', []):
+                        if T(rcd, fl['t']).get('ptr'):
+                            rn.recs['peer:' + fl['n']] = scansim.PodRecord()
+                            rn.mems[fl['n']] = ('R', 'peer:' + fl['n'])
+                    rn.run()
+                except scansim.Unsupported as u:
+                    und = str(u)
+                    break
+                except (scansim.OOB, TypeError, KeyError, ValueError, ZeroDivisionError) as u:
+                    und = 'interpretation failed: %s' % u
+                    break
+                runs += 1
+                ts = got.get('ts')
+                if ts is None:
+                    und = 'the timed wait was not reached (now %s, timeout %s)' % (nw, to_)
+                    break
+                sec, ns = ts.get('tv_sec'), ts.get('tv_nsec')
+                if not isinstance(sec, int) or not isinstance(ns, int):
+                    bad = (nw, to_, 'tv_sec / tv_nsec are %r / %r (not set to integers)' % (sec, ns))
+                elif not 0 <= ns < 1000000000:
+                    bad = (nw, to_, 'tv_nsec = %d is outside [0, 999999999]: the call fails at once with EINVAL instead of waiting' % ns)
+                elif abs(sec + ns * 1e-9 - (nw + to_)) > 5e-6:
+                    bad = (nw, to_, 'the deadline is %d s + %d ns, now + timeout is %.6f' % (sec, ns, nw + to_))
+                if bad:
+                    break
+            if bad or und:
+                break
+        ctx.evaluations += runs
+        if bad:
+            ctx.violation('C13.deadline', f['pq'], role, fwhere(f), 'with the clock at %.6f s and a timeout of %s s: %s' % bad)
+        elif und:
+            ctx.undecided('C13.deadline', f['pq'], role, fwhere(f), 'outside the interpreted fragment: %s' % und)
+        else:
+            ctx.ok('C13.deadline', f['pq'], role, fwhere(f), '%d (clock, timeout) pairs: 0 <= tv_nsec < 10^9 and tv_sec + tv_nsec/10^9 = now + timeout' % runs)
+    ctx.floor('C13.deadline', n, 2)
